@@ -244,6 +244,39 @@ def edge_leaf_fragments():
                      st.integers(0, 3), st.integers(0, 1))
 
 
+def collapse_fragments():
+    """
+    A small sub-trie under a prefix P, then the delete that forces the remaining structure to
+    be re-normalised: a branch left with ONE child that is (a) another branch, (b) a leaf,
+    (c) an extension, or (d) left with only its own value / only one child next to a removed
+    value.  With a non-empty P the node above is an extension that has to absorb the result.
+    """
+
+    def build(p, n1, n2, x1, x2, shape, size, order, syn):
+        n2 = n2 if n2 != n1 else (n1 + 1) % 16
+        x2 = x2 if x2 != x1 else (x1 + 1) % 16
+        val = ("sfx", size)
+        if shape == 0:    # child n1 is a branch
+            keep = [p + bytes([n1 * 16 + x1]) + b"\x01", p + bytes([n1 * 16 + x2]) + b"\x02"]
+        elif shape == 1:  # child n1 is a leaf
+            keep = [p + bytes([n1 * 16 + x1]) + b"\x01\x02"]
+        elif shape == 2:  # child n1 is an extension leading to a branch
+            keep = [p + bytes([n1 * 16 + x1, 0x33, x1 * 16 + 1]), p + bytes([n1 * 16 + x1, 0x33, x2 * 16 + 2])]
+        else:             # the branch carries a value itself (key P) next to one child
+            keep = [p, p + bytes([n1 * 16 + x1]) + b"\x01"]
+        victim = p + bytes([n2 * 16 + x2]) + b"\x09" if shape != 3 else keep[order % 2]
+        sets = [("set", ("lit", k), val, syn) for k in keep if k != victim or shape == 3]
+        if shape != 3:
+            sets.append(("set", ("lit", victim), val, 1 - syn))
+        if order % 2:
+            sets.reverse()
+        return sets + [("del", ("lit", victim), syn)]
+
+    return st.builds(build, st.sampled_from([b"", b"\x12", b"\x12\x34", b"\x00", b"\xab\xcd\xef"]),
+                     st.integers(0, 15), st.integers(0, 15), st.integers(0, 15), st.integers(0, 15),
+                     st.integers(0, 3), st.sampled_from([1, 20, 33]), st.integers(0, 3), st.integers(0, 1))
+
+
 def fan_items():
     """16 keys that differ in one nibble: a full branch node (all 16 children present)."""
     return st.builds(
@@ -306,10 +339,10 @@ def histories(tier, max_ops=None, batches=True, aborts=False, near_weight=2, sfx
         op = st.one_of([op] * 3 + [look_ops(tier)] * looks)
     mirror = mirror_fragments()
     parts = ([op] * 12 + [mirror] * mirror_weight + [fan_fragments()] + [twin_fragments()] * mirror_weight
-             + [edge_leaf_fragments()])
+             + [edge_leaf_fragments()] + [collapse_fragments()])
     if batches:
         inner = st.lists(st.one_of([op] * 8 + [mirror] * mirror_weight + [twin_fragments()] * mirror_weight
-                                   + [edge_leaf_fragments()]), max_size=8).map(
+                                   + [edge_leaf_fragments()] + [collapse_fragments()]), max_size=8).map(
             lambda fr: _flatten(fr, 12)
         )
         if aborts:
